@@ -260,3 +260,30 @@ package bbolt
 //@   ensures [same] tx.db == old(tx.db) && tx.meta == old(tx.meta) && tx.writable == old(tx.writable)
 //@   skip tx.go:544 because UnsafeByteSlice views the page buffer (A-unsafe); chunk sizes are bounded by MaxAllocSize-1 by construction
 //@   skip tx.go:577 because UnsafeByteSlice views the page buffer (A-unsafe)
+
+//@ func (*Tx).Check
+//@   opaque
+//@   modifies nothing
+
+//@ func (*Tx).Commit
+//@   returns (err)
+//@   props C01 C03 C06 C07 C08 C18
+//@   requires !tx.managed
+//@   requires tx.db != nil && tx.writable ==> tx.db.rwlock.held && tx.db.rwtx == tx && tx.meta != nil && tx.db.freelist != nil && !tx.db.metalock.held
+//@   requires tx.db != nil && tx.writable ==> tx.db.pageSize >= 512 && tx.db.pageSize <= 16777216 && tx.meta.magic == common.Magic && tx.meta.version == common.Version
+//@   requires tx.db != nil && tx.writable ==> (tx.meta.pgid + 8589934592) * tx.db.pageSize <= 2305843009213693952 && tx.db.AllocSize >= 0 && tx.db.AllocSize <= 2305843009213693952 && tx.db.datasz >= 0 && tx.db.MaxSize >= 0
+//@   requires tx.db != nil && tx.writable && tx.db.data != nil ==> tx.db.meta0 != nil && tx.db.meta1 != nil && (metavalid(tx.db.meta0) || metavalid(tx.db.meta1))
+//@   requires tx.db != nil && tx.writable ==> (tx.meta.pgid + 1) * tx.db.pageSize <= tx.db.datasz
+//@   requires tx.db != nil && tx.writable && !tx.db.NoSync ==> unsynced == 0
+//@   panics when tx.db != nil && tx.writable && tx.db.StrictMode
+//@   skip Write.panics0 because root page and freelist page below the high-water mark is a tree/allocator invariant (A-tree, A-cow): not derivable from the contracts in reach
+//@   ensures [closedtx] old(tx.db) == nil ==> err == berrors.ErrTxClosed
+//@   ensures [readonly] old(tx.db) != nil && !old(tx.writable) ==> err == berrors.ErrTxNotWritable
+//@   ensures [closed] old(tx.db) != nil && old(tx.writable) ==> calls("(*Tx).close", tx) + calls("(*Tx).rollback", tx) == old(calls("(*Tx).close", tx) + calls("(*Tx).rollback", tx)) + 1
+//@   ensures [unlocked] old(tx.db) != nil && old(tx.writable) ==> !old(tx.db).rwlock.held
+//@   ensures [rollback] old(tx.db) != nil && old(tx.writable) && err != nil ==> calls("(*Tx).rollback", tx) == old(calls("(*Tx).rollback", tx)) + 1
+//@   ensures [norollback] err == nil ==> calls("(*Tx).rollback", tx) == old(calls("(*Tx).rollback", tx)) && calls("(*Tx).nonPhysicalRollback", tx) == old(calls("(*Tx).nonPhysicalRollback", tx))
+//@   ensures [nonphys] calls("(*Tx).nonPhysicalRollback", tx) == old(calls("(*Tx).nonPhysicalRollback", tx))
+//@   ensures [durable] old(tx.db) != nil && old(tx.writable) && err == nil && !old(tx.db.NoSync) ==> unsynced == 0 && nsyncs >= old(nsyncs) + 2
+//@   ensures [metalast] err == nil ==> lastwriteoff == (old(tx.meta.txid) % 2) * old(tx.db.pageSize) && calls("(*Tx).writeMeta", tx) == old(calls("(*Tx).writeMeta", tx)) + 1 && calls("(*Tx).write", tx) == old(calls("(*Tx).write", tx)) + 1
+//@   ensures [nometaonerror] err != nil && calls("(*Tx).writeMeta", tx) == old(calls("(*Tx).writeMeta", tx)) ==> nwrites == old(nwrites) || calls("(*Tx).write", tx) == old(calls("(*Tx).write", tx)) + 1
